@@ -25,7 +25,11 @@ def tag(v):  # user function producing a categorical (strings) from a string col
     return pd.Series([str(a) + "_t" for a in v], index=getattr(v, "index", None), dtype="str")
 
 
-NAMESPACE = {"dbl": dbl, "shift1": shift1, "tag": tag}
+def ser(v):  # user function returning a FRESH Series (default RangeIndex), whatever the index of its input
+    return pd.Series(np.asarray(v, dtype=float) * 2.0)
+
+
+NAMESPACE = {"dbl": dbl, "shift1": shift1, "tag": tag, "ser": ser, "pw": 1.5, "gain": 3.0}
 
 
 def ensure_user_transform():
@@ -33,7 +37,7 @@ def ensure_user_transform():
     minmax(x) = (x - min) / (max - min) with min / max remembered from the first call."""
     from formulae.transforms import TRANSFORMS, register_stateful_transform
 
-    if "minmax" in TRANSFORMS:
+    if "minmax" in TRANSFORMS and "mshift" in TRANSFORMS:
         return
 
     class MinMax:
@@ -49,6 +53,20 @@ def ensure_user_transform():
             return (np.asarray(x, dtype=float) - self.lo) / (self.hi - self.lo)
 
     register_stateful_transform(MinMax)
+
+    class MeanShift:
+        """mshift(x, by=..): x - mean(x at training) + by; the keyword matters on EVERY call."""
+        __transform_name__ = "mshift"
+
+        def __init__(self):
+            self.mean = None
+
+        def __call__(self, x, by=0.0):
+            if self.mean is None:
+                self.mean = float(np.mean(x))
+            return np.asarray(x, dtype=float) - self.mean + np.asarray(by, dtype=float)
+
+    register_stateful_transform(MeanShift)
 
 
 class Atom:
@@ -113,6 +131,15 @@ NUM_ATOMS = {
     "ni": dict(vars_=["ni"], fn=_col("ni")),
     "nf": dict(vars_=["nf"], fn=_col("nf")),
     "f32": dict(vars_=["f32"], fn=_col("f32")),
+    "ser(x)": dict(vars_=["x"], fn=lambda t, d: d["x"].to_numpy(dtype=float) * 2.0),
+    "I(center(x) * z)": dict(vars_=["x", "z"], stateful=True,
+                             fn=lambda t, d: (d["x"].to_numpy(dtype=float) - _mean(t, "x")) * d["z"].to_numpy(dtype=float)),
+    "{scale(z) + x}": dict(vars_=["x", "z"], stateful=True, name="I(scale(z) + x)",
+                           fn=lambda t, d: (d["z"].to_numpy(dtype=float) - _mean(t, "z")) / _sd(t, "z") + d["x"].to_numpy(dtype=float)),
+    "mshift(z, by=w)": dict(vars_=["z", "w"], stateful=True,
+                            fn=lambda t, d: d["z"].to_numpy(dtype=float) - _mean(t, "z") + d["w"].to_numpy(dtype=float)),
+    "mshift(x, by=gain)": dict(vars_=["x"], stateful=True, fn=lambda t, d: d["x"].to_numpy(dtype=float) - _mean(t, "x") + 3.0),
+    "np.power(w, pw)": dict(vars_=["w"], fn=lambda t, d: d["w"].to_numpy(dtype=float) ** 1.5),
     "center(ni)": dict(vars_=["ni"], stateful=True, fn=lambda t, d: d["ni"].to_numpy(dtype=float) - _mean(t, "ni")),
     "scale(nf)": dict(vars_=["nf"], stateful=True,
                       fn=lambda t, d: (d["nf"].to_numpy(dtype=float) - _mean(t, "nf")) / _sd(t, "nf")),
@@ -365,13 +392,14 @@ def _name(text):
 PROFILES = {
     # what C04 judges: numeric variables / pointwise calls and treatment coded factors
     "plain": dict(
-        num=["x", "z", "w", "cnt", "`col 1`", "x\u00b2", "bl", "ni", "nf", "f32", "np.log(w)", "I(x ** 2)", "{x * 2}", "dbl(x)", "I(x + z)",
+        num=["x", "z", "w", "cnt", "`col 1`", "x\u00b2", "bl", "ni", "nf", "f32", "ser(x)", "np.power(w, pw)", "np.log(w)", "I(x ** 2)", "{x * 2}", "dbl(x)", "I(x + z)",
              "shift1(z, by=w)", "np.log(np.exp(x))", "dbl(shift1(`col 1`, by=cnt))"],
         cat=["s", "h", "o", "cu", "co", "C(k)", "`c:1`", "C(s)", "T(h)", "I(s)", "tag(h)"],
         fac=["g", "g2", "s", "co", "C(k)", "cu"],
     ),
     "stateful": dict(
-        num=["x", "z", "w", "x\u00b2", "bl", "ni", "nf", "f32", "center(ni)", "scale(nf)", "np.log(w)", "center(x)", "scale(x)", "standardize(z)", "center(np.log(w))",
+        num=["x", "z", "w", "x\u00b2", "bl", "ni", "nf", "f32", "center(ni)", "scale(nf)", "ser(x)", "I(center(x) * z)", "{scale(z) + x}", "mshift(z, by=w)",
+             "mshift(x, by=gain)", "np.log(w)", "center(x)", "scale(x)", "standardize(z)", "center(np.log(w))",
              "I(center(x) ** 2)", "scale(center(z))", "bs(x, df=4)", "bs(z, df=5, degree=2)", "poly(x, 2)",
              "bs(x, knots=kn_x)", "bs(x, knots=kn_x, degree=2, intercept=True)", "binary(k)", "B(cnt)", "minmax(z)", "xz", "center(xz)", "scale(xz)",
              "bs(z, df=4, lower_bound=-10, upper_bound=20)", "poly(x, 4)",
